@@ -12,8 +12,18 @@ for d in sorted(glob.glob(os.path.join(ROOT, "seeded", "*"))):
     first = next((v.get("first", "") for v in runs.values() if v.get("exit") == 1), "")
     mon = first.split(":")[0].replace("monitor=", "") if first else ""
     rows.append((sid, m.get("breaks"), (m.get("summary") or "")[:110].replace("|", "/"), (m.get("needs") or "")[:90].replace("|", "/"), ", ".join(det) or "-", mon))
-print("| seeded change | breaks | what was changed | needs | caught by | monitor |")
-print("|---|---|---|---|---|---|")
+import sys
+out = ["| seeded change | breaks | what was changed | needs | caught by | monitor |", "|---|---|---|---|---|---|"]
 for r in rows:
-    print("| " + " | ".join(str(x) for x in r) + " |")
-print(f"\n{len(rows)} seeded changes, {sum(1 for r in rows if r[4] != '-')} caught by the quick tier of the property they break.")
+    out.append("| " + " | ".join(str(x) for x in r) + " |")
+out.append(f"\n{len(rows)} seeded changes, {sum(1 for r in rows if r[4] != '-')} caught by a check of the property they break (quick tier unless noted).")
+text = "\n".join(out)
+if "--write" in sys.argv:
+    p = os.path.join(ROOT, "DESIGN.md")
+    s = open(p).read()
+    b, e = "<!-- seeded-table:begin (tools/report.py --write) -->", "<!-- seeded-table:end -->"
+    i, j = s.index(b) + len(b), s.index(e)
+    open(p, "w").write(s[:i] + "\n" + text + "\n" + s[j:])
+    print(f"DESIGN.md updated: {len(rows)} rows")
+else:
+    print(text)
